@@ -429,13 +429,27 @@ def spurious_failures(f):
     if not fails:
         return None
     cut = set()
+    u = f.unit
+    held = {}          # variable -> [assignment elements `v = call(...)`]
+    for e in f.all_elems():
+        if e.is_assign and e.op == "=" and norm(e.kid(0))[0] == "v" and e.kid(1) is not None and e.kid(1).strip() is not None and e.kid(1).strip().cls == "CallExpr":
+            held.setdefault(norm(e.kid(0)), []).append(e)
     for b in f.blocks.values():
         if b.cond is None or len(b.succs) != 2:
             continue
         for truth, si in ((True, 0), (False, 1)):
             for op, L, R, Le, _ in cond_atoms_(b.cond, truth):
                 k = Le.strip() if Le is not None else None
-                if k is not None and k.cls == "CallExpr" and ((op == "!=" and R == ("c", 0)) or (op == "==" and R in (("c", 0), ("c", -1))) or (op == "<" and R == ("c", 0))):
+                if (k is None or k.cls != "CallExpr") and L in held:
+                    # `v = g(..); if (v == NULL)`: the variable holds a call's answer
+                    ds = [d for d in held[L] if f.dominates(d, b.cond) or d.block.id == b.id]
+                    k = ds[-1].kid(1).strip() if ds else None
+                if k is None or k.cls != "CallExpr":
+                    continue
+                isptr = (u.types.get(k.ty) or {}).get("kind") == "ptr"
+                failed = (isptr and op == "==" and R == ("c", 0)) or \
+                    (not isptr and ((op == "!=" and R == ("c", 0)) or (op == "==" and R == ("c", -1)) or (op == "<" and R == ("c", 0))))
+                if failed:
                     cut.add((b.id, si))
     seen, work = set(), [f.entry]
     while work:
